@@ -894,7 +894,8 @@ variable {env} {G : D → Prop}
 
 /-- **C02 over histories, linked**: for every environment satisfying C01's `EnvOK`, from every state
     satisfying C01's reachable-state invariant, along every history that avoids C01's `Known` class
-    (`Allowed`: valid arguments, not F02/F03, no `jump_*` on an open phrase list) the ledger equation holds:
+    (`Allowed`: valid arguments, not F02/F03; the `jump_*` calls on an open phrase list are included since C01
+    covers them) the ledger equation holds:
     characters of all commit strings + symbols left = symbols at the start + characters accepted.
     No `TilesAlong` premise. -/
 theorem history_ledger_linked (hE : EnvOK env G) {e e' : Editor D L} (hi : EditorInv env G e) {ops : List (Op L)}
